@@ -529,6 +529,18 @@ DOMNode *DOMDocumentImpl::insertBefore(DOMNode *newChild, DOMNode *refChild)
         )
         throw DOMException(DOMException::HIERARCHY_REQUEST_ERR,0, getMemoryManager());
 
+    // A fragment may bring at most one element, and none if there is one already:
+    // check before any of its children is moved, so that a refused insertion changes nothing
+    if (newChild->getNodeType() == DOMNode::DOCUMENT_FRAGMENT_NODE)
+    {
+        XMLSize_t elemCount = (fDocElement != 0) ? 1 : 0;
+        for (DOMNode* kid = newChild->getFirstChild(); kid != 0; kid = kid->getNextSibling())
+        {
+            if (kid->getNodeType() == DOMNode::ELEMENT_NODE && ++elemCount > 1)
+                throw DOMException(DOMException::HIERARCHY_REQUEST_ERR,0, getMemoryManager());
+        }
+    }
+
     // if the newChild is a documenttype node created from domimplementation, set the ownerDoc first
     if ((newChild->getNodeType() == DOMNode::DOCUMENT_TYPE_NODE) && !newChild->getOwnerDocument())
         ((DOMDocumentTypeImpl*)newChild)->setOwnerDocument(this);
